@@ -26,7 +26,7 @@ def lim_instances(ctx):
     out = [(2, 1, 1, 1, 1, 3, True), (2, 2, 1, 1, 1, 3, True), (2, 2, 2, 1, 2, 3, True), (2, 3, 2, 1, 2, 3, True),
            (3, 2, 1, 1, 1, 2, True)]
     if ctx.tier == "thorough":
-        out += [(2, 3, 2, 2, 2, 3, True), (2, 3, 2, 2, 2, 4, True), (3, 3, 2, 1, 2, 3, False), (2, 4, 3, 2, 2, 4, False)]
+        out += [(2, 3, 2, 2, 2, 3, True), (2, 3, 2, 2, 2, 4, False), (3, 3, 2, 1, 2, 3, False), (2, 4, 3, 2, 2, 4, False)]
     return out
 
 
